@@ -128,8 +128,15 @@ pub fn run_case<R: Reg>(ops: &[Op], prop: &str, excl: &Exclusions, slot: usize) 
     };
     set_quiet(false);
     talloc::track_set(false);
+    // C10 and C06 promise that a cloned / deserialized world "keeps satisfying every other
+    // property": in their checks a failure of those oracles after a clone / after the deserialized
+    // world took over counts as their own.
+    const OTHERS: [&str; 7] = ["C01", "C02", "C03", "C04", "C05", "C13", "C15"];
+    let inherited = |f: &Fail| {
+        f.props.iter().any(|p| OTHERS.contains(p)) && ((prop == "C10" && stats.clones > 0) || (prop == "C06" && stats.deser_replaced > 0))
+    };
     match fail {
-        Some(f) if f.props.contains(&prop) => CaseOutcome { stats, fail: Some(f), foreign: None },
+        Some(f) if f.props.contains(&prop) || inherited(&f) => CaseOutcome { stats, fail: Some(f), foreign: None },
         Some(f) => CaseOutcome { stats, fail: None, foreign: Some(f) },
         None => CaseOutcome { stats, fail: None, foreign: None },
     }
